@@ -1,6 +1,7 @@
 package main
 
 import (
+	"github.com/pip-services3-gox/pip-services3-expressions-gox/tokenizers"
 	"unicode"
 	"fmt"
 	"regexp"
@@ -183,6 +184,15 @@ func reuseEval(c *Ctx, m string, cur evalStep, fresh string) {
 }
 
 func parseOn(p *parsers.ExpressionParser, expr string) string {
+	if strings.HasPrefix(expr, "\x00tok") {
+		// a history step that hands over one artificial token (see reuseParse)
+		var typ int
+		rest := expr[len("\x00tok"):]
+		i := strings.Index(rest, ":")
+		fmt.Sscanf(rest[:i], "%d", &typ)
+		p.ParseTokens([]*tokenizers.Token{tokenizers.NewToken(typ, rest[i+1:], 1, 1)})
+		return "tokens"
+	}
 	err := p.ParseString(expr)
 	var res []string
 	for _, t := range p.ResultTokens() {
@@ -238,6 +248,16 @@ func reuseParse(c *Ctx, expr string, o parseOut) {
 		// a neighbour that differs in letter case only
 		safeCallT(3*time.Second, func() string { return parseOn(p, decoy) })
 		parserHist = append(parserHist, decoy)
+	}
+	if t := strings.Trim(expr, " \t\r\n"); t != "" && c.Rng.Intn(4) == 0 {
+		// handed over as tokens just before: ONE word token / ONE quoted token whose text is the whole expression (what no
+		// tokenizer would produce) - the text itself must still be parsed as text afterwards
+		typ := []int{tokenizers.Word, tokenizers.Quoted}[c.Rng.Intn(2)]
+		safeCallT(3*time.Second, func() string {
+			p.ParseTokens([]*tokenizers.Token{tokenizers.NewToken(typ, t, 1, 1)})
+			return ""
+		})
+		parserHist = append(parserHist, fmt.Sprintf("\x00tok%d:%s", typ, t))
 	}
 	for _, e := range steps {
 		got := safeCallT(3*time.Second, func() string { return parseOn(p, e) })
